@@ -31,11 +31,14 @@ Inductive action :=
 | AChghost (n u h : str)
 | ANames (c : str) (multiprefix uhnames : bool)
 | AWho (c : str)
-| AReset.
+| AReset
+| AIsupport (channellen : N).      (* the server announces ISUPPORT CHANNELLEN=n (numeric 005) *)
 
 Definition SERVER : str := [105; 114; 99; 46; 115; 114; 118].     (* "irc.srv": a server name has a dot, a nick never *)
 Definition RESET : str := [82; 69; 83; 69; 84].                    (* pseudo-message: the driver reconnects *)
 Definition str_366 : str := [51; 54; 54].
+Definition str_005 : str := [48; 48; 53].
+Definition CHANNELLEN_EQ : str := [67; 72; 65; 78; 78; 69; 76; 76; 69; 78; 61].   (* "CHANNELLEN=" *)
 Definition EQS : str := [61].  Definition STAR : str := [42].
 Definition CREATED : N := 1000.
 
@@ -324,6 +327,9 @@ Definition step (nick0 : str) (mp uh : bool) (s : srv) (a : action) : srv * list
         (Srv nick0 (rename_user (s_me s) nick0 (s_users s)) (vmap (del_member (s_me s)) (s_chans s)),
          [Msg [] RESET []])
       else (s, [])
+  | AIsupport n =>
+      (* nothing changes on the server; the history generator only uses channel names of at most n characters afterwards *)
+      (s, [Msg SERVER str_005 [s_me s; CHANNELLEN_EQ ++ py_str_Z (Z.of_N n); [115; 117; 112; 112; 111; 114; 116; 101; 100]]])
   end.
 
 (* ---- what the bot is entitled to know (every entry is the answer of a lookup) ---- *)
